@@ -194,6 +194,17 @@ pub struct ReadStats {
     /// F10 countdown: Some(n) = the n-th read/seek call from now fails once
     pub arm: Option<u64>,
     pub hard_errors: u64,
+    /// error kind of the F10 fault (see ReadFaults::hard_kind)
+    pub hard_kind: u8,
+}
+
+pub fn hard_error_kind(k: u8) -> io::ErrorKind {
+    match k % 4 {
+        0 => io::ErrorKind::Other,
+        1 => io::ErrorKind::TimedOut,
+        2 => io::ErrorKind::WouldBlock,
+        _ => io::ErrorKind::ConnectionReset,
+    }
 }
 
 impl ReadStats {
@@ -237,6 +248,7 @@ impl SimRead {
                 eintr_reads: 0,
                 arm: None,
                 hard_errors: 0,
+                hard_kind: faults.hard_kind,
             })),
             generation: 0,
         }
@@ -253,7 +265,7 @@ impl Read for SimRead {
             return Ok(0);
         }
         if stats.hard_fault_due() {
-            return Err(io::Error::new(io::ErrorKind::Other, "injected read error"));
+            return Err(io::Error::new(hard_error_kind(stats.hard_kind), "injected read error"));
         }
         if self.faults.eintr_pm > 0 && self.rng.below(1000) < self.faults.eintr_pm as u64 {
             stats.eintr_reads += 1;
@@ -283,7 +295,7 @@ impl Seek for SimRead {
             let mut stats = self.stats.lock().unwrap_or_else(|e| e.into_inner());
             stats.seeks += 1;
             if stats.hard_fault_due() {
-                return Err(io::Error::new(io::ErrorKind::Other, "injected seek error"));
+                return Err(io::Error::new(hard_error_kind(stats.hard_kind), "injected seek error"));
             }
         }
         let new = match from {
